@@ -5,7 +5,7 @@
    under test on every run — and the hand model Model.ConstFold of is_const/eval_const/on_block.
    Run-time semantics: Spec.IRArith.  [fold op t a b] = what the pass does with the instruction
    [Binop (Const a : t) op (Const b : t) : t];  [chain op y t c1 c2] = [(y op c1) op c2]. *)
-From PV Require Import Lib.Py Spec.IRArith Model.ConstFold Proofs.C38_constfold.
+From PV Require Import Lib.Py Spec.IRArith Model.ConstFold Proofs.C38_constfold Proofs.C38_trees.
 Open Scope Z_scope.
 
 (* every operator of the folder's table (+ - * % << >>), every width, all operands for which the
@@ -67,6 +67,24 @@ Theorem c38_wrap_meaning : forall t v, 1 <= bits t ->
 Proof. exact wrap_meaning. Qed.
 Print Assumptions c38_wrap_meaning.
 
+(* WHOLE CONSTANT EXPRESSION TREES (the recursion of is_const / eval_const through nested Binop and
+   Cast instructions).  [cexp] = constants, unknown values (CVar), casts, operators of the table;
+   [wt] = constants in range and operands of the type of their Binop; [run] = run-time evaluation
+   instruction by instruction (Spec.IRArith).  A tree of any depth that evaluates at run time is
+   replaced, at its root, by exactly that value, which lies in the range of the root's type. *)
+Theorem c38_tree_fold_exact : forall e v, wt e -> is_leaf e = false -> run e = Some v ->
+  on_instruction (to_value e) = Ok (Folded v (typ_of (cty e))) /\ in_range (cty e) v.
+Proof. exact tree_fold_exact. Qed.
+Print Assumptions c38_tree_fold_exact.
+
+(* ANY well-formed tree (unknown leaves, undefined inner operations such as x % 0 or shifts out of
+   range included): the pass does not raise, and a constant it creates - by folding or by one of the
+   two chain rules with arbitrary constant subtrees c1, c2 - has the root's type and is in range *)
+Theorem c38_tree_never_raises : forall e, wt e ->
+  exists o, on_instruction (to_value e) = Ok o /\ good_outcome (cty e) o.
+Proof. exact tree_never_raises. Qed.
+Print Assumptions c38_tree_never_raises.
+
 (* BOUNDED extras: exhaustive 8-bit sweeps, one per operator of the table (all 2 x 65536 operand
    pairs of i8 and u8, by vm_compute): defined => folded to the run-time value; undefined => left
    alone or folded to something in range *)
@@ -98,4 +116,18 @@ Example c38_nonvacuous :
     = Ok (Rechained (VOther (typ_of i8)) (opcode Sub) (-56) (typ_of i8)) /\
   on_instruction (VCast (VConst 300 (typ_of i32)) (typ_of u8)) = Ok (Folded 44 (typ_of u8)) /\
   is_const (VOther (typ_of u8)) = Ok false /\ in_range i8 (-128) /\ in_range u8 255.
+Proof. vm_compute. repeat split; congruence. Qed.
+
+Definition ex_tree1 : cexp :=   (* (-7 % 2) + i8(100 * 3 : i32)  =  -1 + 44 *)
+  CBin Add i8 (CBin Rem i8 (CConst (-7) i8) (CConst 2 i8)) (CCast i8 (CBin Mul i32 (CConst 100 i32) (CConst 3 i32))).
+Definition ex_tree2 : cexp :=   (* (y - 200) - (50 + 50)  on u8 *)
+  CBin Sub u8 (CBin Sub u8 (CVar u8) (CConst 200 u8)) (CBin Add u8 (CConst 50 u8) (CConst 50 u8)).
+Definition ex_tree3 : cexp :=   (* 1 + (7 % 0) *)
+  CBin Add i32 (CConst 1 i32) (CBin Rem i32 (CConst 7 i32) (CConst 0 i32)).
+Example c38_trees_nonvacuous :
+  wt ex_tree1 /\ is_leaf ex_tree1 = false /\ run ex_tree1 = Some 43 /\
+  on_instruction (to_value ex_tree1) = Ok (Folded 43 (typ_of i8)) /\
+  wt ex_tree2 /\ run ex_tree2 = None /\
+  on_instruction (to_value ex_tree2) = Ok (Rechained (VOther (typ_of u8)) (opcode Sub) 44 (typ_of u8)) /\
+  wt ex_tree3 /\ run ex_tree3 = None /\ on_instruction (to_value ex_tree3) = Ok Unchanged.
 Proof. vm_compute. repeat split; congruence. Qed.
